@@ -76,6 +76,8 @@ func main() {
 			if r.IntN(4) == 0 {
 				c.Churn = r.Uint64() | 1
 			}
+			// a quarter of the cases give the routes their trailing-slash option through Update instead of at registration
+			c.SlashViaUpdate = r.IntN(4) == 0
 			check(run, c, r)
 		}
 	})
